@@ -4601,6 +4601,9 @@ def missing_context_manager(source: str) -> str:
         if any(core.filter_nodes(nodes, (ast.FunctionDef, ast.ClassDef, ast.AsyncFunctionDef))):
             continue
 
+        if any(node.lineno <= asmt.end_lineno for node in nodes):
+            continue  # 'f = open(x); g = 1': a with statement cannot be followed by '; ...'
+
         while nodes:
             if core.walk(nodes[-1], target_template):
                 break
